@@ -24,14 +24,9 @@ FAMILY = 'origin-'
 # and keeps that time, so the first heartbeat comes at clock value 10000 + n*60000 instead of 10 s after Open().  Not generated
 # unless this switch is on (with it on, the check reports the finding unless it is listed as known).
 INCLUDE_HB_BEFORE_OPEN = True
-# confirmed defects that are not repaired (yet): key -> line printed as KNOWN-FINDING.  Reported to the lead (patch proposal
-# /tmp/fix_C13_1.diff); moves to known_findings.json or disappears with the fix.
-PENDING_KNOWN = {
-    'origin-hb-before-open': 'C13 origin-hb-before-open: SetHeartbeatIntervalAndOffset(60000, 10000) called before Open() computes NextTime against SyncOffset == 0 '
-                             '(the absolute clock); Open() sets SyncOffset but its own SetHeartbeatIntervalAndOffset(60000, 10000) sees "no change" and keeps that time, so the '
-                             'first heartbeat comes at clock value 10000 + n*60000 instead of 10 s after Open(): the behaviour depends on the clock origin (witness: NODE mode=1 '
-                             'ndev=1 src=22 q=40 slots=5 t0=<5000|1000|0> cold=1 hb=1 | H 60000 10000 ; T 4500 ; P ; T 500 ; P ; T 500 ; P ; T 4000 ; P ; T 500 ; P)',
-}
+# confirmed defects that are not repaired (yet): key -> line printed as KNOWN-FINDING.  (`origin-hb-before-open` was repaired in /repo e3d90bc:
+# the scenario is generated and must pass; Coq: Spec/HbSpec.v hb_open_resync_stmt.)
+PENDING_KNOWN = {}
 # The node harness maps three fenced arrays per case and never unmaps them: one (64-bit build) process runs out of memory mappings
 # (vm.max_map_count, "ERROR: Failed to mmap") after about 10 800 cases, so the lines are fed in chunks.
 CHUNK = 4000
